@@ -213,3 +213,56 @@ Example C17_example_change_happens :
   udp false (enr s2) <> udp false (enr s1) /\ udp false (enr s2) = Some 7.
 Proof. vm_compute. split; [discriminate|reflexivity]. Qed.
 Print Assumptions C17_example_change_happens.
+
+(* Configuration plumbing (Model/Config.v, transcribing ConfigBuilder, Config, Discv5::new / Discv5::start,
+   tied to the code by the `glue` correspondence run on real loopback sockets): the parameters the theorems
+   above take as given are the ones the application configured - the value set last through the builder,
+   or the default - at every component they are handed to. *)
+Require Discv5V.Generated.Params Discv5V.Model.Config Discv5V.Proofs.Config.
+Theorem C17_configured_quorum_reaches_the_service : forall ops v, Discv5V.Model.Config.start_node ops = Some v ->
+  Discv5V.Model.Config.VN (Discv5V.Model.Config.c_enr_peer_update_min (Discv5V.Model.Config.nv_built v)) = Discv5V.Model.Config.configured ops Discv5V.Model.Config.FEnrPeerUpdateMin /\
+  Discv5V.Model.Config.VN (Discv5V.Model.Config.c_enr_peer_update_min (Discv5V.Model.Config.nv_service v)) = Discv5V.Model.Config.configured ops Discv5V.Model.Config.FEnrPeerUpdateMin /\
+  Discv5V.Model.Config.VN (Discv5V.Model.Config.c_enr_peer_update_min (Discv5V.Model.Config.nv_handler v)) = Discv5V.Model.Config.configured ops Discv5V.Model.Config.FEnrPeerUpdateMin.
+Proof. exact Discv5V.Proofs.Config.effective_enr_peer_update_min. Qed.
+Print Assumptions C17_configured_quorum_reaches_the_service.
+Theorem C17_quorum_of_a_started_node_is_at_least_two : forall ops v, Discv5V.Model.Config.start_node ops = Some v ->
+  (2 <= Discv5V.Model.Config.c_enr_peer_update_min (Discv5V.Model.Config.nv_service v))%N.
+Proof. exact Discv5V.Proofs.Config.effective_enr_peer_update_min_ge_2. Qed.
+Print Assumptions C17_quorum_of_a_started_node_is_at_least_two.
+Theorem C17_configured_vote_duration_reaches_the_service : forall ops v, Discv5V.Model.Config.start_node ops = Some v ->
+  Discv5V.Model.Config.VN (Discv5V.Model.Config.c_vote_duration (Discv5V.Model.Config.nv_built v)) = Discv5V.Model.Config.configured ops Discv5V.Model.Config.FVoteDuration /\
+  Discv5V.Model.Config.VN (Discv5V.Model.Config.c_vote_duration (Discv5V.Model.Config.nv_service v)) = Discv5V.Model.Config.configured ops Discv5V.Model.Config.FVoteDuration /\
+  Discv5V.Model.Config.VN (Discv5V.Model.Config.c_vote_duration (Discv5V.Model.Config.nv_handler v)) = Discv5V.Model.Config.configured ops Discv5V.Model.Config.FVoteDuration.
+Proof. exact Discv5V.Proofs.Config.effective_vote_duration. Qed.
+Print Assumptions C17_configured_vote_duration_reaches_the_service.
+Theorem C17_configuration_example : exists v, Discv5V.Model.Config.start_node Discv5V.Proofs.Config.example_ops = Some v.
+Proof. destruct Discv5V.Proofs.Config.example_starts as [v [H _]]. exists v. exact H. Qed.
+Print Assumptions C17_configuration_example.
+
+(* The running service loop (PONG handling, auto-NAT windows; Model/IpVote.v lstep, compared with the real
+   Service::start on generated vote histories): an address of a family changes only while a PONG of that
+   family is handled - to the clear majority, with a higher sequence number and one event - or is withdrawn
+   when that family's own auto-NAT window has run out; votes of one family never touch the other. *)
+Theorem C17_loop_address_changes_per_family :
+  forall n now e fam,
+  let n' := lstep n now e in
+  udp fam (enr (n_svc n')) <> udp fam (enr (n_svc n)) ->
+  (exists voter a0 co tick iv iv1 a,
+     e = LPong voter (fam, a0) co tick /\ should_count (n_conn n) fam = true /\
+     ip_votes (n_svc n) = Some iv /\ (iv1 = iv \/ iv1 = fst (majority iv tick)) /\
+     majority_of tick (minimum iv) (put (new_vote iv voter (fam, a0) tick) (tbl fam iv1)) = Some a /\
+     udp fam (enr (n_svc n')) = Some a /\
+     udp (negb fam) (enr (n_svc n')) = udp (negb fam) (enr (n_svc n)) /\
+     seq (enr (n_svc n')) = seq (enr (n_svc n)) + 1 /\
+     events (n_svc n') = events (n_svc n) ++ [(fam, a)])
+  \/
+  (exists t, e = LTime t /\ due (wait_of (n_conn n) fam) t = true /\
+     udp fam (enr (n_svc n')) = None /\ events (n_svc n') = events (n_svc n)).
+Proof. exact loop_address_changes_per_family. Qed.
+Print Assumptions C17_loop_address_changes_per_family.
+Theorem C17_family_without_votes_never_changes :
+  forall window s evs fam,
+  forallb (fun x => negb (reports fam (snd x))) evs = true ->
+  udp fam (enr (n_svc (lrun {| n_svc := s; n_conn := new_conn window |} evs))) = udp fam (enr s).
+Proof. exact family_without_votes_never_changes. Qed.
+Print Assumptions C17_family_without_votes_never_changes.
